@@ -1561,3 +1561,21 @@ package query
 //@   loop 2 modifies primaries[*]
 //@   ownwrites C: MD: ML: MV:
 //@   modifies *
+
+// C07: ORDER BY. The sort keys of row r are, in the order of the ORDER BY items, the sort keys of the cells of the columns
+// the items resolve to (taken from the per-cell cache when present, which stays consistent); a worker writes only its row.
+//@ func (*View).OrderBy$1
+//@   property C07 C12 C13
+//@   requires view != nil && 0 <= index && index < len(view.RecordSet) && index < len(view.sortValuesInEachRecord)
+//@   requires view.sortValuesInEachCell != nil ==> index < len(view.sortValuesInEachCell) && cacheRowOk(view, index)
+//@   requires forall(j, 0, len(sortIndices), 0 <= sortIndices[j] && sortIndices[j] < len(view.RecordSet[index]) && len(view.RecordSet[index][sortIndices[j]]) >= 1)
+//@   ensures [sort-key-j-is-the-key-of-the-column-of-item-j] result == nil && len(view.sortValuesInEachRecord[index]) == len(sortIndices) &&
+//@       forall(j, 0, len(sortIndices), view.sortValuesInEachRecord[index][j] != nil && svSource(view.sortValuesInEachRecord[index][j]) == view.RecordSet[index][sortIndices[j]][0])
+//@   ensures [cache-stays-consistent] view.sortValuesInEachCell != nil ==> cacheRowOk(view, index)
+//@   ensures [other-rows-keys-untouched] forall(k, 0, len(view.sortValuesInEachRecord), k != index ==> same(view.sortValuesInEachRecord[k], old(view.sortValuesInEachRecord[k])))
+//@   loop 1 invariant 0 <= $i && $i <= len(sortIndices) && len(sortValues) == len(sortIndices) && fresh(sortValues)
+//@   loop 1 invariant view.sortValuesInEachCell == old(view.sortValuesInEachCell) && view.RecordSet == old(view.RecordSet) && same(view.RecordSet[index], old(view.RecordSet[index])) && view.sortValuesInEachRecord == old(view.sortValuesInEachRecord)
+//@   loop 1 invariant view.sortValuesInEachCell != nil ==> cacheRowOk(view, index) && view.sortValuesInEachCell[index] != nil
+//@   loop 1 invariant forall(j, 0, $i, sortValues[j] != nil && svSource(sortValues[j]) == view.RecordSet[index][sortIndices[j]][0])
+//@   loop 1 invariant forall(k, 0, len(view.sortValuesInEachRecord), same(view.sortValuesInEachRecord[k], old(view.sortValuesInEachRecord[k])))
+//@   modifies *
